@@ -338,7 +338,7 @@ def t2_keys(res, tier, broken):
 T1_FUNCS = [("key.c", f) for f in [
     "ABTI_ktable_set_impl", "ABTI_ktable_set", "ABTI_ktable_set_unsafe", "ABTI_ktable_get", "ABTI_ktable_create",
     "ABTI_ktable_alloc_elem", "ABTI_ktable_get_idx", "ABTI_ktable_is_valid", "ABTI_ktable_free", "ABT_key_set",
-    "ABT_key_get", "ABT_key_create", "ABTD_spinlock_acquire", "ABTD_spinlock_release"]] + [
+    "ABT_key_get", "ABT_key_create", "ABT_key_free", "ABTI_key_get_ptr", "ABTI_key_get_handle", "ABTD_spinlock_acquire", "ABTD_spinlock_release"]] + [
     ("self.c", "ABT_self_set_specific"), ("self.c", "ABT_self_get_specific"),
     ("thread.c", "ABT_thread_set_specific"), ("thread.c", "ABT_thread_get_specific"),
     ("thread.c", "ABTI_thread_get_mig_data"), ("thread.c", "ythread_create"), ("thread.c", "thread_free")]
@@ -359,7 +359,8 @@ def t3_conc(res, tier, broken):
     for b in tb:
         broken.append({"kind": "T1-skeleton", **b})
     vs.campaign(res, broken, tier, "C16", "sc_ktable", ["sc_ktable.c"], scenario_params, t3_ktable.validate,
-                sizes={"quick": (16, 4), "thorough": (150, 8), "search": (150, 8)})
+                sizes={"quick": (16, 4), "thorough": (150, 8), "search": (150, 8)},
+                reject_is_failure=vs.protocol_reject_is_failure)
 
 
 def run(res, tier, broken):
